@@ -75,11 +75,29 @@ def toyHash (n : Nat) (data : Bytes) : Bytes :=
       go k s' (acc ++ [s' / 65536 % 256])
   go n s []
 
-def parseLastVariant (s : String) : Option LastVariant :=
-  if s = "shipped" then some .asShipped else if s = "intended" then some .intended else none
+def parseTextArg (s : String) : Option (List Nat) := ofHex s
 
-def parseSignerVariant (s : String) : Option SignerVariant :=
-  if s = "shipped" then some .asShipped else if s = "intended" then some .intended else none
+/-- `n:<name>` | `t:<hex of ASCII text>` -/
+def parseDomainArg (s : String) : Option DomainArg :=
+  match s.toList with
+  | 'n' :: ':' :: rest => (parseName (String.ofList rest)).map DomainArg.name
+  | 't' :: ':' :: rest => (ofHex (String.ofList rest)).map DomainArg.text
+  | _ => none
+
+/-- `none` | `b:<hex>` | `t:<hex of ASCII text>` -/
+def parseSaltArg (s : String) : Option SaltArg :=
+  if s = "none" then some .none else
+  match s.toList with
+  | 'b' :: ':' :: rest => (ofHex (String.ofList rest)).map SaltArg.bytes
+  | 't' :: ':' :: rest => (ofHex (String.ofList rest)).map SaltArg.text
+  | _ => none
+
+/-- `i:<n>` | `t:<hex of ASCII text>` -/
+def parseAlgArg (s : String) : Option AlgArg :=
+  match s.toList with
+  | 'i' :: ':' :: rest => (String.ofList rest).toNat?.map AlgArg.num
+  | 't' :: ':' :: rest => (ofHex (String.ofList rest)).map AlgArg.text
+  | _ => none
 
 def handleC15 : List String → Option String
   | ["c15.digest", cls, ty, origin, rd, canon] => do
@@ -95,8 +113,7 @@ def handleC15 : List String → Option String
   | ["c15.keyid", w] => do
     let w ← ofHex w
     some s!"ok {keyId ConstsC15.algRSAMD5 w}"
-  | "c15.rrsigdata" :: v :: tc :: alg :: labels :: ottl :: exp :: inc :: tag :: signer :: origin :: rrname :: rdtype :: rdclass :: rds => do
-    let v ← parseSignerVariant v
+  | "c15.rrsigdata" :: tc :: alg :: labels :: ottl :: exp :: inc :: tag :: signer :: origin :: rrname :: rdtype :: rdclass :: rds => do
     let tc ← tc.toNat?; let alg ← alg.toNat?; let labels ← labels.toNat?; let ottl ← ottl.toNat?
     let exp ← exp.toNat?; let inc ← inc.toNat?; let tag ← tag.toNat?
     let signer ← parseName signer
@@ -106,7 +123,7 @@ def handleC15 : List String → Option String
     let rds ← rds.mapM parseRdata
     let sig : RRSig := { typeCovered := tc, algorithm := alg, labels := labels, originalTtl := ottl,
                          expiration := exp, inception := inc, keyTag := tag, signer := signer }
-    some (showDErr toHexP (rrsigData v ConstsC15.canonTable sig origin rrname rdtype rdclass rds))
+    some (showDErr toHexP (rrsigData ConstsC15.canonTable sig origin rrname rdtype rdclass rds))
   | ["c15.ds", name, key, dt, deny] => do
     let name ← parseName name
     let key ← ofHex key
@@ -120,17 +137,29 @@ def handleC15 : List String → Option String
     let iters ← iters.toNat?
     let alg ← alg.toNat?
     some (showDErr (fun cs => String.ofList (cs.map Char.ofNat)) (nsec3Hash (toyHash 20) name salt iters alg))
+  | ["c15.nsec3args", domain, salt, iters, alg] => do
+    let domain ← parseDomainArg domain
+    let salt ← parseSaltArg salt
+    let iters ← iters.toNat?
+    let alg ← parseAlgArg alg
+    some (showDErr (fun cs => String.ofList (cs.map Char.ofNat)) (nsec3HashArgs (toyHash 20) domain salt iters alg))
+  | ["c15.nsec3owner", domain, salt, iters, alg, zone] => do
+    let domain ← parseDomainArg domain
+    let salt ← parseSaltArg salt
+    let iters ← iters.toNat?
+    let alg ← parseAlgArg alg
+    let zone ← parseName zone
+    some (showDErr showName (nsec3Owner (toyHash 20) domain salt iters alg zone))
   | ["c15.bitmap", ts] => do
     let ts ← parseNatList ts
     let ws := fromRdtypes ts
     some ("ok " ++ showWindows ws ++ " " ++ toHexP (bitmapWire ws))
-  | "c15.signzone" :: v :: cut :: origin :: signer :: nodes => do
-    let v ← parseLastVariant v
-    let cut ← parseLastVariant cut
+  | "c15.signzone" :: cut :: origin :: signer :: nodes => do
+    let cut ← parseBool cut
     let origin ← parseName origin
     let signer ← parseBool signer
     let nodes ← nodes.mapM parseZNode
-    let evts := signZoneNsec { nsecConsts with cutTypes := (cut == .intended) } v origin nodes signer
+    let evts := signZoneNsec { nsecConsts with cutTypes := cut } origin nodes signer
     some ("ok " ++ (if evts.isEmpty then "-" else " ".intercalate (evts.map showEvt)))
   | "c15.chainspec" :: origin :: nodes => do
     let origin ← parseName origin
